@@ -1,3 +1,4 @@
+mod c06_stages;
 mod gen;
 mod golden;
 mod interval;
@@ -50,6 +51,27 @@ fn main() {
             monitors::run(&prop, &mut ctx);
             write_hashes(&out.with_extension("hashes"), &ctx.case_hashes);
             std::fs::write(&out, ctx.to_json().to_string()).expect("write shard result");
+        }
+        "lin" => {
+            // verif-harness lin <family> <op> <n>   (run under cachegrind by the C06 orchestrator)
+            let n: usize = args[4].parse().unwrap();
+            monitors::c06::lin_driver(&args[2], &args[3], n);
+        }
+        "release-slice" => {
+            let (n, bad) = monitors::c06::run_release_slice();
+            println!("{}", serde_json::json!({"executions": n, "panics": bad}));
+        }
+        "sanitizer-slice" => {
+            // verif-harness sanitizer-slice x <i>/<n>
+            let sh = args.get(3).cloned().unwrap_or_else(|| "0/1".into());
+            let mut it = sh.split('/');
+            let i: usize = it.next().unwrap().parse().unwrap();
+            let n: usize = it.next().unwrap().parse().unwrap();
+            let (k, bad) = monitors::c06::sanitizer_slice(i, n);
+            println!("SLICE-DONE executions={} panics={}", k, bad.len());
+            for b in bad {
+                println!("SLICE-PANIC {}", b);
+            }
         }
         "gen-golden" => {
             golden::gen(&verif_dir().join("golden"));
@@ -131,6 +153,11 @@ fn orchestrate(prop: &str, tier: Tier, seed: u64) -> i32 {
                 } else {
                     *m.inconclusive.entry(format!("shard {} exceeded the wall-clock watchdog but finished when re-run alone ({}): machine load", o.index, how)).or_insert(0) += 1;
                 }
+            } else if how.contains("signal: 9") || how.contains("signal: 15") {
+                // SIGKILL / SIGTERM come from outside the process (OOM killer, operator, watchdog):
+                // never a verdict about the crate
+                *m.inconclusive.entry(format!("shard {} was killed from outside ({}; re-run: {}) at case {} — out of memory or operator kill, not a verdict", o.index, d, how, label)).or_insert(0) += 1;
+                m.harness_errors.push(format!("shard {} killed from outside ({})", o.index, d));
             } else if how.contains("signal") {
                 m.violations.insert(
                     format!("abort/{}", sig_of(&how)),
@@ -141,11 +168,14 @@ fn orchestrate(prop: &str, tier: Tier, seed: u64) -> i32 {
             }
         }
     }
+    if prop == "C06" {
+        c06_stages::run_all(tier, &vdir, &mut m);
+    }
     let spec = RunSpec {
         prop: prop.to_string(),
         tier,
         seed,
-        verif_dir: vdir,
+        verif_dir: vdir.clone(),
         rule: info.rule.to_string(),
         floor_classes: info.floor_classes,
         level_text: String::new(),
